@@ -216,12 +216,32 @@ def strategy(tier):
         return st.one_of(a_scope, s_scope, upd)
 
     block = st.recursive(blocks(probe), blocks, max_leaves=12)
-    return st.builds(
+    general = st.builds(
         lambda pre, bs, post: {"body": ([pre] if pre else []) + [x for b in bs for x in (b[0], b[1])] + [post]},
         st.one_of(st.none(), probe),
         st.lists(st.tuples(block, probe), min_size=1, max_size=3),
         probe,
     )
+
+    @st.composite
+    def deep_chain(draw):
+        """one chain of 6..14 nested blocks, most of them supplying a value of one of a few types (so that the same type
+        is supplied at several levels), probed at the bottom and after every level while unwinding"""
+        depth = draw(st.integers(6, 14))
+        types = draw(st.lists(st.sampled_from(["A", "B", "R", "A2", "F", "U"]), min_size=1, max_size=3, unique=True))
+        all_probe = {"k": "probe", "lookups": [[t, False] for t in types] + [[types[0], True]]}
+        node = [dict(all_probe)]
+        for level in range(depth, 0, -1):
+            supplies = [] if draw(st.integers(0, 5)) == 0 else [{"type": draw(st.sampled_from(types)), "v": (level % 9) + 1}]
+            kind = draw(st.sampled_from(["async", "sync", "updated", "updated"])) if level > 1 else "async"
+            if kind == "updated":
+                blk = {"k": "updated", "state": supplies, "body": node}
+            else:
+                blk = {"k": "scope", "mode": kind, "name": f"l{level}", "state": supplies, "disp": None, "disp_obj": False, "body": node, "prep": 0}
+            node = [blk, dict(all_probe)]
+        return {"body": [*node]}
+
+    return st.one_of(general, general, general, general, deep_chain())
 
 
 def budget(tier):
